@@ -210,6 +210,24 @@ CHECKS = {
           "whole varint; BytesUntilLimit() == -1 without limit); the driver's instantiation set stands for 'all supported types' "
           "(protobuf MessageLite delegation is a one-line forward and not instantiated).",
   "technique": "static analysis: sibling-agreement (writer/sizer/reader), constant-algebra over evaluated tags, error-discipline edge-guards and push/pop pairing over CFG facts of instantiated templates"},
+ "C12": {
+  "text": "Decides the structural clauses behind 'clearing keeps capacity' and 'elements beyond size stay constructed' over "
+          "ReusableVector<int | SwissString | ReusableVector<SwissString>>, MonotonicBasicString, the ReusableTraits siblings and "
+          "ReusableManager, instantiated through the public API: clear() only resets the size; the capacity is only replaced by a "
+          "provably larger value and the constructed size only incremented; no shrinking operation destroys an element; raw "
+          "constructions pair one to one with increments of the constructed size; every re-use (reconstruct / move-assign) of a slot "
+          "is guarded strictly below, and every raw construction at or above, a bound derived from the constructed size (min/max "
+          "forms and decrement-before-use recognised, wrong field = violation, unrecognised shape = cannot decide); constructors "
+          "build what they record; the manager either re-creates (update* < release < recreate*, counter reset) or clears, accessors "
+          "hold the slot address and re-read it; allocation metadata only grows (max(old,current)), covers every constructed element "
+          "and is consumed on re-creation; an argument that may alias an element is consumed before anything relocates or shifts "
+          "(finding F8: emplace_back repaired, emplace/insert/resize(value) listed as known findings); reconstruct of a clearable "
+          "type clears. The boundary combinations of size/constructed/capacity are reached only by operation sequences no test "
+          "enumerates. Equivalence with std::vector/std::string, the index arithmetic of the shifting loops and zero growth at "
+          "convergence are not decided.",
+  "note": "Trusted: clang 14 CFG and template instantiation; the monotonic allocator (C06); protobuf message traits are not instantiated "
+          "(they need a generated message type).",
+  "technique": "static analysis: who-may-write / monotone-update rules, construct-increment pairing, edge-guard classification against the constructed boundary, ordering (update < release < recreate), sibling agreement and argument-use-after-relocation reachability over CFG facts of instantiated templates"},
  "C05": {
   "text": "Decides the single-winner shape of the anyflow run-time: every 'now runnable / now finished' decision is an equality test on the "
           "result of the RMW that changed the counter, evaluated flow-sensitively (GraphVertex::ready = acq_rel fetch_sub(1) == 1; "
